@@ -2514,3 +2514,15 @@ mod test {
         assert_eq!(measurement.name, "m1.MERGE2");
     }
 }
+
+#[cfg(a2lfile_verif)]
+pub(crate) mod verif {
+    use crate::{ItemList, Measurement};
+    pub(crate) fn make_unique_name(
+        current_name: &str,
+        orig_map: &ItemList<Measurement>,
+        merge_map: &ItemList<Measurement>,
+    ) -> String {
+        super::make_unique_name(current_name, orig_map, merge_map)
+    }
+}
